@@ -188,17 +188,17 @@ def splitLine : Bytes → Bytes × Bytes
     if b.toNat = 10 then ([b], rest)
     else let r := splitLine rest; (b :: r.1, r.2)
 
+/-- how many bytes the next call may return when `n` are wanted -/
+def FStream.lim (s : FStream) (n : Nat) : Nat :=
+  match s.sched.head? with
+  | some (some k) => min n k
+  | _ => n
+
 def FStream.read (s : FStream) (n : Nat) : Bytes × FStream :=
-  let k := match s.sched.head? with
-    | some (some k) => min n k
-    | _ => n
-  (s.data.take k, ⟨s.data.drop k, s.sched.tail⟩)
+  (s.data.take (s.lim n), ⟨s.data.drop (s.lim n), s.sched.tail⟩)
 
 def FStream.readline (s : FStream) : Bytes × FStream :=
-  let line := (splitLine s.data).1
-  let k := match s.sched.head? with
-    | some (some k) => min line.length k
-    | _ => line.length
+  let k := s.lim (splitLine s.data).1.length
   (s.data.take k, ⟨s.data.drop k, s.sched.tail⟩)
 
 def fileOps : StreamOps FStream where
